@@ -190,7 +190,8 @@ Proof.
       * reflexivity.
   - destruct (layer_opacity l) as [op|].
     + destruct (fl_ltb op fl_one) eqn:LT.
-      * f_equal. unfold convert_rgb. cbn [im_px]. rewrite map2_map_r. reflexivity.
+      * destruct (imode_eqb (im_mode img) M_RGBA); [reflexivity|].
+        f_equal. unfold convert_rgb. cbn [im_px]. rewrite map2_map_r. reflexivity.
       * destruct (is_alpha_mode (im_mode img)) eqn:AM.
         -- rewrite convert_rgba_px_alpha by exact AM. reflexivity.
         -- reflexivity.
@@ -262,10 +263,10 @@ Definition opaque_layer (l : layer) : Prop :=
   Forall (fun s => px_ok s /\ (is_alpha_mode (im_mode (norm_image l)) = true -> px_a s = 255))
          (im_px (norm_image l)).
 
-Lemma px_step_opaque : forall c am op d s,
-  op_lt1 op = false -> px_ok s -> (am = true -> px_a s = 255) -> px_step c am op d s = set_a s 255.
+Lemma px_step_opaque : forall c am rg op d s,
+  op_lt1 op = false -> px_ok s -> (am = true -> px_a s = 255) -> px_step c am rg op d s = set_a s 255.
 Proof.
-  intros c am op d s O K A. unfold px_step.
+  intros c am rg op d s O K A. unfold px_step.
   assert (A1 : am = true -> ac_px d s = set_a s 255).
   { intro H. rewrite ac_px_opaque_src by auto. rewrite <- (A H). symmetry. apply set_a_same. }
   assert (A2 : am = true -> paste_mask_px false d s = set_a s 255).
@@ -421,49 +422,39 @@ Qed.
 
 (* ------------------------------------------------------------------ is_opaque *)
 
-(* what WMSSource.is_opaque = true guarantees (and what it does not: see is_opaque_opacity_refuted) *)
+(* what WMSSource.is_opaque = true guarantees: a WMS source inside its resolution range, not declared
+   transparent, not faded by merge (no opacity below 1), without coverage or with the query inside it *)
 Lemma src_is_opaque_facts : forall s, src_is_opaque s = true ->
-  s_wms s = true /\ s_res_ok s = true /\ s_transparent s = false /\ src_blank s = false /\
-  (s_cov s = 0 \/ s_cov s = 1).
+  s_wms s = true /\ s_res_ok s = true /\ truthy (s_transparent s) = false /\ op_lt1 (s_opacity s) = false /\
+  src_blank s = false /\ (s_cov s = 0 \/ s_cov s = 1).
 Proof.
   intros s H. unfold src_is_opaque in H. unfold src_blank.
   destruct (s_wms s); [|discriminate]. destruct (s_res_ok s); [|discriminate].
-  destruct (s_transparent s); [discriminate|]. cbn [negb] in H.
-  destruct (match s_opacity s with Some op => fl_ltb fl_zero op && fl_ltb op fl_099 | None => false end); [discriminate|].
+  destruct (truthy (s_transparent s)); [discriminate|]. cbn [negb] in H.
+  destruct (op_lt1 (s_opacity s)); [discriminate|].
   destruct (s_cov s =? 0) eqn:E0.
   - apply Z.eqb_eq in E0. rewrite E0. repeat split; auto.
   - destruct (s_cov s =? 1) eqn:E1; [|discriminate]. apply Z.eqb_eq in E1. rewrite E1. repeat split; auto.
 Qed.
 
-(* the opacity test of is_opaque is too weak: a source with opacity 0 (or 0.995) is declared opaque although
-   merge fades it (op_lt1): the hypothesis `opaque_layer` of the pruning theorem is not implied by is_opaque *)
-Definition src_op0 : src :=
-  mk_src [1] true true false (Some (0, 0)) 0 1 [1] 1 1 None None 0 1.
-Definition src_op0995 : src :=
-  mk_src [1] true true false (Some (995, -10)) 0 1 [1] 1 1 None None 0 1.   (* 995/1024 *)
-
-Lemma is_opaque_opacity_refuted :
-  exists s, src_is_opaque s = true /\ op_lt1 (s_opacity s) = true.
-Proof. exists src_op0. vm_compute. auto. Qed.
-
-Lemma is_opaque_opacity_refuted_099 :
-  src_is_opaque (mk_src [1] true true false (Some (4076, -12)) 0 1 [1] 1 1 None None 0 1) = true /\
-  op_lt1 (Some (4076, -12)) = true /\ fade_factor (4076, -12) = 253.
+Example is_opaque_rejects_faded :
+  src_is_opaque (mk_src [1] true true (Some false) (Some (0, 0)) 0 1 [1] 1 1 None None 0 1) = false /\
+  src_is_opaque (mk_src [1] true true (Some false) (Some (4076, -12)) 0 1 [1] 1 1 None None 0 1) = false /\
+  src_is_opaque (mk_src [1] true true (Some false) (Some (1, 0)) 0 1 [1] 1 1 None None 0 1) = true /\
+  src_is_opaque (mk_src [1] true true None None 1 1 [1] 1 1 None None 5 1) = true.
 Proof. vm_compute. auto. Qed.
 
-(* with the guard that is missing in the code, is_opaque implies that no fade happens *)
-Lemma src_is_opaque_no_fade : forall s,
-  src_is_opaque s = true ->
-  (forall op, s_opacity s = Some op -> fl_ltb fl_zero op = true /\ fl_ltb op fl_099 = false -> fl_ltb op fl_one = false) ->
-  (forall op, s_opacity s = Some op -> fl_ltb fl_zero op = true) ->
-  op_lt1 (s_opacity s) = false.
+(* sources outside their resolution range and explicitly opaque upper sources are never combined *)
+Lemma src_compatible_facts : forall a b, src_compatible a b = true ->
+  s_res_ok a = true /\ s_res_ok b = true /\ s_transparent b <> Some false /\ s_url a = s_url b /\
+  s_opacity a = None /\ s_opacity b = None.
 Proof.
-  intros s H G P. unfold src_is_opaque in H.
-  destruct (s_wms s); [|discriminate]. destruct (s_res_ok s); [|discriminate].
-  destruct (s_transparent s); [discriminate|]. cbn [negb] in H.
-  destruct (s_opacity s) as [op|] eqn:E; [|reflexivity].
-  unfold op_lt1. specialize (P op eq_refl). rewrite P in H. cbn [andb] in H.
-  destruct (fl_ltb op fl_099) eqn:L; [discriminate|]. apply (G op eq_refl). auto.
+  intros a b H. unfold src_compatible in H.
+  repeat (apply andb_prop in H; destruct H as [H ?]).
+  destruct (s_opacity a); [destruct (s_opacity b); discriminate|]. destruct (s_opacity b); [discriminate|].
+  repeat split; auto.
+  - intro E. rewrite E in *. discriminate.
+  - apply Z.eqb_eq. assumption.
 Qed.
 
 (* ------------------------------------------------------------------ non-vacuity and refuted statements *)
@@ -496,39 +487,52 @@ Example ex_fold_nontrivial :
   nth 1%nat (im_px (merge_loop 2 ex_opts [ex_below; ex_above])) clear_px = (9, 10, 9, 201).
 Proof. vm_compute. reflexivity. Qed.
 
-Definition ex_s (i u : Z) (tr : bool) : src := mk_src [i] true true tr None 0 u [i] 1 1 None None 0 1.
+Definition ex_s (i u : Z) (tr : option bool) : src := mk_src [i] true true tr None 0 u [i] 1 1 None None 0 1.
 Example ex_combined :
-  map s_lnames (combined_layers [ex_s 1 7 false; ex_s 2 7 true; ex_s 3 8 true; ex_s 4 7 true]) = [[1; 2]; [3]; [4]].
+  map s_lnames (combined_layers [ex_s 1 7 (Some false); ex_s 2 7 (Some true); ex_s 3 8 (Some true);
+                                 ex_s 4 7 (Some true); ex_s 5 7 None; ex_s 6 7 (Some false)])
+  = [[1; 2]; [3]; [4; 5]; [6]].
 Proof. vm_compute. reflexivity. Qed.
 
-(* defect: in a non-transparent (RGB) result a layer with opacity < 1 is blended with Image.blend, which
-   ignores the layer's alpha: a fully transparent layer pixel changes the picture *)
-Lemma blend_ignores_alpha_refuted :
-  exists d s, px_a s = 0 /\ px_step false true (Some (1, -1)) d s <> d.
-Proof. exists (200, 0, 0, 255), (0, 0, 0, 0). split; [reflexivity|]. vm_compute. discriminate. Qed.
-
-(* in a transparent (RGBA) result the same layer pixel leaves the picture unchanged, for every opacity *)
-Lemma composite_respects_alpha : forall op d s,
-  px_a s = 0 -> fl_ltb op fl_one = true -> px_step true true (Some op) d s = d.
+(* a fully transparent pixel of an RGBA layer never changes the picture, whatever the opacity:
+   in a transparent (RGBA) result ... *)
+Lemma composite_respects_alpha : forall rg op d s,
+  px_a s = 0 -> px_step true true rg op d s = d.
 Proof.
-  intros op d s A L. unfold px_step. rewrite L. apply ac_px_transparent_src.
-  rewrite px_a_set_a, A. reflexivity.
+  intros rg op d s A. unfold px_step.
+  assert (E : ac_px d s = d) by (apply ac_px_transparent_src; exact A).
+  destruct op as [op|]; [|exact E]. destruct (fl_ltb op fl_one); [|exact E].
+  apply ac_px_transparent_src. rewrite px_a_set_a, A. reflexivity.
 Qed.
 
-(* defect: the global clip coverage squares the alpha of an RGBA result even inside the coverage *)
-Lemma global_clip_alpha_refuted :
-  exists o r, im_px (global_clip o r [false]) <> im_px r.
+(* ... and in a non-transparent (RGB) result (pixels of the result have alpha 255) *)
+Lemma blend_respects_alpha : forall op d s,
+  px_ok d -> px_a d = 255 -> px_a s = 0 -> px_step false true true op d s = d.
 Proof.
-  exists (mk_ropts None (Some true) None), (mk_image M_RGBA T_none [(0, 0, 0, 76)]).
-  vm_compute. discriminate.
+  intros op d s K D A. unfold px_step.
+  assert (E : paste_mask_px false d s = d) by (apply paste_mask_transparent; assumption).
+  destruct op as [op|]; [|exact E]. destruct (fl_ltb op fl_one); [|exact E].
+  rewrite A. destruct d as [[[dr dg] db] da]. destruct K as (Hr & Hg & Hb & Ha). cbn [px_a] in D. subst da.
+  unfold mask_paste_px. destruct (blend_px op (dr, dg, db, 255) (set_a s 255)) as [[[br bg] bb] ba].
+  rewrite !blend8_zero by assumption. reflexivity.
 Qed.
 
-(* for an opaque result pixel inside the coverage the global clip is the identity *)
-Lemma global_clip_opaque_inside : forall o s,
-  px_ok s -> px_a s = 255 ->
-  im_px (global_clip o (mk_image M_RGBA T_none [s]) [false]) = [s].
+Example blend_respects_alpha_nontrivial :
+  px_step false true true (Some (1, -1)) (200, 0, 0, 255) (0, 0, 0, 0) = (200, 0, 0, 255) /\
+  px_step false true true (Some (1, -1)) (200, 0, 0, 255) (0, 0, 0, 255) = (100, 0, 0, 255).
+Proof. vm_compute. auto. Qed.
+
+(* the global clip replaces the pixels outside the coverage by the background and keeps the others *)
+Lemma global_clip_pixel : forall o r outside k dflt,
+  length outside = length (im_px r) -> (k < length (im_px r))%nat ->
+  nth k (im_px (global_clip o r outside)) dflt =
+  if nth k outside true then create_px o else nth k (im_px r) dflt.
 Proof.
-  intros o [[[sr sg] sb] sa] (Hr & Hg & Hb & Ha) A. cbn [px_a] in A. subst sa.
-  unfold global_clip, mask_image, convert_rgba. cbn [im_mode im_px map2 imode_eqb px_a map].
-  destruct (create_px o) as [[[dr dg] db] da]. rewrite !blend8_full by assumption. reflexivity.
+  intros o r outside k dflt L K. unfold global_clip. cbn [im_px].
+  rewrite nth_map2 with (da := true) (db := dflt); [reflexivity | lia | lia].
 Qed.
+
+Example global_clip_keeps_alpha :
+  im_px (global_clip (mk_ropts None (Some true) None) (mk_image M_RGBA T_none [(0, 0, 0, 76); (1, 2, 3, 9)]) [false; true])
+  = [(0, 0, 0, 76); (255, 255, 255, 0)].
+Proof. vm_compute. reflexivity. Qed.
